@@ -207,6 +207,11 @@ HllArray<A>* HllArray<A>::newHll(std::istream& is, const A& allocator) {
     uint8_t auxLgIntArrSize = listHeader[4];
     AuxHashMap<A>* auxHashMap = AuxHashMap<A>::deserialize(is, lgK, auxCount, auxLgIntArrSize, comapctFlag, allocator);
     ((Hll4Array<A>*)sketch)->putAuxHashMap(auxHashMap);
+  } else if (tgtHllType == HLL_4 && !comapctFlag) {
+    // an updatable image carries the (zeroed) aux array even if it is unused: consume it
+    const uint8_t auxLgIntArrSize = listHeader[hll_constants::LG_ARR_BYTE] != 0
+        ? listHeader[hll_constants::LG_ARR_BYTE] : hll_constants::LG_AUX_ARR_INTS[lgK];
+    is.ignore(static_cast<std::streamsize>(4) << auxLgIntArrSize);
   }
 
   if (!is.good())
